@@ -555,8 +555,10 @@ def convert_closures(body, convs, counts):
     unit's template (an `impl <Trait> for <Struct>` whose method has the closure's parameters `$1 $2 ..` and the
     closure's block `$body`, verbatim) is returned to be emitted after the function."""
     items = []
-    for n, repl, templ in sorted(convs, key=lambda c: -c[0]):
+    for n, repl, templ, *opt in sorted(convs, key=lambda c: -c[0]):
         heads = closure_heads(body)
+        if opt and opt[0] and (n < 1 or n > len(heads)):
+            continue
         if n < 1 or n > len(heads):
             raise Lost('closure #%d not found (function has %d closures): closure conversion' % (n, len(heads)))
         m = heads[n - 1]
@@ -975,8 +977,10 @@ def assemble(unit_path, repo, vf_dir):
                     continue
                 if st.startswith('%cloconv'):
                     # %cloconv <n> <replacement expression>   + following indented template lines (D26)
-                    mm = re.match(r'%cloconv\s+(\d+)\s+(.*)$', st)
-                    cur_cc = [int(mm.group(1)), mm.group(2).strip(), '']
+                    # `%cloconv?`: optional -- applied only if the function has such a closure (a function that has none
+                    # today but could be rewritten onto merge_loop directly: seed C10-15)
+                    mm = re.match(r'%cloconv(\??)\s+(\d+)\s+(.*)$', st)
+                    cur_cc = [int(mm.group(2)), mm.group(3).strip(), '', mm.group(1) == '?']
                     f.cloconv.append(cur_cc)
                     mode = 'cloconv'
                     i += 1
